@@ -595,7 +595,7 @@ static void one_case(vh::Ctx & c, uint64_t idx)
 
 int main(int argc, char ** argv)
 {
-  return vh::run(argc, argv, "C16", {20000, 5000000}, one_case, [](vh::Ctx & c) {
+  return vh::run(argc, argv, "C16", {100000, 5000000}, one_case, [](vh::Ctx & c) {
       c.count("samples_generated", g_samples);
       c.count("samples_redrawn_ambiguous_or_out_of_domain", g_redraws);
       c.count("samples_replaced_by_zero_after_200_redraws", g_fallbacks);
